@@ -247,6 +247,21 @@ func genCoverage(c *hmain.Ctx, r *hx.Rng, multiWhich int, add func(stream string
 			phaseS([]hx.Sx{opAppend(z1+1, 0, lines(b, s0, r.Range(1, 3), 30, 0)...)}, 2, r.Range(0, 3), 30000),
 			phaseS(nil, 0, 0, 150)), true)
 	}
+	// directed: ONE lz4 file of 8 lines, killed after k = 1..7 delivered lines, every small read buffer: the restart has to skip
+	// exactly what was committed - a skip loop that overshoots the saved offset by part of a buffer loses lines (seed C03 round
+	// 5); the two random cases above hit that only by luck
+	for _, rb := range []int{16, 50, 200} {
+		for k := 1; k <= 7; k += 2 {
+			b := &caseB{}
+			o := baseCfg()
+			o.readBuf = rb
+			s0 := streams[(rb+k)%len(streams)]
+			c.W.Count(fmt.Sprintf("lz4-resume-directed: read_buffer_size=%d", rb))
+			add("lz4-files", 0, mkCase(o.sx(),
+				phaseS([]hx.Sx{opAppend(3200+rb+k, 0, lines(b, s0, 8, 40, 0)...)}, 2, k, 30000),
+				phaseS(nil, 0, 0, 150)), true)
+		}
+	}
 }
 
 func witnessCriTwoStreams() hx.Sx {
